@@ -34,6 +34,68 @@ fn task_for(name: &str) -> Task {
     }
 }
 
+/// The task of that name with the payload `v` (the version guard of a
+/// repository synchronisation; the other tasks carry nothing).
+fn task_for_v(name: &str, v: u64) -> Task {
+    match task_for(name) {
+        Task::SyncRepo { ca_handle, .. } => {
+            Task::SyncRepo { ca_handle, ca_version: v }
+        }
+        other => other,
+    }
+}
+
+fn carries_payload(name: &str) -> bool {
+    matches!(name, "sa" | "sb")
+}
+
+/// A stored task value with its payload blanked out.
+fn without_payload(mut v: Value) -> Value {
+    fn walk(v: &mut Value) {
+        match v {
+            Value::Object(map) => {
+                for (k, x) in map.iter_mut() {
+                    if k == "ca_version" { *x = json!(0) } else { walk(x) }
+                }
+            }
+            Value::Array(items) => items.iter_mut().for_each(walk),
+            _ => { }
+        }
+    }
+    walk(&mut v);
+    v
+}
+
+/// The payloads of the entries pending under a (model) name.
+fn pending_payloads(env: &Env, name: &str) -> Vec<u64> {
+    fn find(v: &Value) -> Option<u64> {
+        match v {
+            Value::Object(map) => {
+                if let Some(x) = map.get("ca_version") {
+                    return x.as_u64()
+                }
+                map.values().find_map(find)
+            }
+            Value::Array(items) => items.iter().find_map(find),
+            _ => None,
+        }
+    }
+    let store = env.krill.storage().open(TASK_QUEUE_NS).unwrap();
+    let scope = Ident::make("pending");
+    let mut res = Vec::new();
+    for key in store.keys(Some(scope), "").unwrap() {
+        if split_key(key.as_str()).map(|(_, n)| model_name(n)).as_deref()
+            == Some(name)
+            && let Ok(Some(v)) = store.get::<Value>(Some(scope), &key)
+            && let Some(p) = find(&v)
+        {
+            res.push(p);
+        }
+    }
+    res.sort();
+    res
+}
+
 fn real_name(name: &str) -> &'static str {
     match name {
         "start" => "queue_start_tasks",
@@ -172,6 +234,7 @@ fn run_one(
     // The key of the task claimed last (the scheduler thread's task).
     let mut cur: Option<(Box<Ident>, String)> = None;
     let mut up = false;
+    let mut payload: u64 = 0;
     // With the memory back-end a "crash" cannot drop the storage. We keep
     // the runtime and only forget the scheduler's state.
 
@@ -236,18 +299,24 @@ fn run_one(
                 let ts = clock.to_real(int_arg(action, "ts"));
                 let mode = str_arg(action, "m");
                 let prio = Priority::from_timestamp_ms(ts as u128);
+                // every call carries a payload of its own
+                payload += 1;
+                let pv = payload;
+                if carries_payload(n) {
+                    line["pv"] = json!(pv);
+                }
                 guarded(|| {
                     let tasks = e.krill.tasks();
                     let r = match mode {
                         "IfMissing" => {
-                            tasks.schedule_missing(task_for(n), prio)
+                            tasks.schedule_missing(task_for_v(n, pv), prio)
                         }
                         "ReplaceExistingSoonest" => {
-                            tasks.schedule(task_for(n), prio)
+                            tasks.schedule(task_for_v(n, pv), prio)
                         }
                         "FinishOrReplaceExistingSoonest" => {
                             tasks.schedule_and_finish_existing(
-                                task_for(n), prio
+                                task_for_v(n, pv), prio
                             )
                         }
                         other => {
@@ -268,7 +337,9 @@ fn run_one(
                             ).map_err(|e| e.to_string())?;
                             return q.schedule_task(
                                 &name,
-                                &serde_json::to_value(task_for(n)).unwrap(),
+                                &serde_json::to_value(
+                                    task_for_v(n, pv)
+                                ).unwrap(),
                                 Some(ts as u128), mode
                             ).map(|_| "ok".into()).map_err(|e| {
                                 e.to_string()
@@ -289,7 +360,9 @@ fn run_one(
                         let expected = serde_json::to_value(
                             task_for_checked(&name)
                         ).unwrap_or(Value::Null);
-                        line["value_ok"] = json!(value == expected);
+                        line["value_ok"] = json!(
+                            without_payload(value) == without_payload(expected)
+                        );
                         cur = Some((key, name));
                         Outcome::Ok(Ok("ok".into()))
                     }
@@ -368,6 +441,10 @@ fn run_one(
         }
         let e = env.as_ref().unwrap();
         let (pending, running) = project(e, &clock);
+        if line.get("pv").is_some() {
+            // what the entries pending under the name carry after the call
+            line["pays"] = json!(pending_payloads(e, str_arg(action, "n")));
+        }
         line["ev"] = json!(actual);
         line["pending"] = pending;
         line["running"] = running;
